@@ -489,6 +489,7 @@ func (c *Cluster) writeMsg(e *Entry, msg protocol.Message) {
 //	"drop"              close the connection without answering, request not applied
 //	"apply-drop"        apply the request, then close the connection without answering
 //	"cut:<k>"           normal answer, but only k bytes of the response frame are delivered, then the connection closes
+//	"<alt>+cut:<k>"     the answer <alt> (e.g. "err:6", nothing applied), cut in the same way after k bytes
 //	"split:<k1>,<k2>,..[@<ms>]" normal answer, complete, but the client receives the response frame in pieces: the
 //	                    bytes before k1 at once, those before k2 <ms> (default 10) of virtual time later, and so on;
 //	                    nothing is lost and the connection stays open (a response that arrives in several segments)
@@ -519,6 +520,11 @@ func (c *Cluster) Answer(e *Entry, alt string) {
 	if len(alt) > 4 && alt[:4] == "cut:" {
 		cut, _ = strconv.Atoi(alt[4:])
 		mode = ""
+	}
+	if i := strings.Index(alt, "+cut:"); i > 0 {
+		// "<answer>+cut:<k>": the answer alternative before the '+' (e.g. "err:6"), cut like "cut:<k>"
+		cut, _ = strconv.Atoi(alt[i+5:])
+		mode = alt[:i]
 	}
 	if alt == "apply-drop" {
 		mode = ""
